@@ -404,15 +404,17 @@ func (st *c12State) tableRows(fi *FuncInfo, obj types.Object) []*c12Row {
 	return rows
 }
 
-// expandTables replaces every unresolved emission whose argument is a string field of a constant-table loop
-// variable by one resolved emission per row of the table.
+// expandTables replaces every emission whose argument is a string field of a constant-table loop variable by one
+// resolved emission per row of the table — also when the shared extractor already resolved it to the set of all
+// rows' strings: the guards around such a write speak about other fields of the same row (`on&a.mask != 0`), and
+// only a per-row emission lets them be evaluated with that row's constants.
 func (st *c12State) expandTables() {
 	if st.rows == nil {
 		st.rows = map[*Emission]*c12Row{}
 	}
 	var out []*Emission
 	for _, e := range st.ems {
-		if e.Resolved || e.FnName != e.Fn.Name {
+		if e.FnName != e.Fn.Name {
 			out = append(out, e)
 			continue
 		}
